@@ -128,7 +128,7 @@ Init ==
   /\ pc = "idle" /\ cyc = NoCyc /\ now = 0
   /\ bud = [edits |-> 0, fails |-> 0, kills |-> 0, stops |-> 0, deletes |-> 0, foreign |-> 0, toggles |-> 0,
             relists |-> 0, holds |-> 0]
-  /\ gh = [succ |-> [h \in H |-> 0], seen |-> [h \in H |-> 0], deldone |-> {}, delagain |-> FALSE, early |-> FALSE,
+  /\ gh = [succ |-> [h \in H |-> 0], seen |-> [h \in H |-> 0], deldone |-> {}, delagain |-> FALSE, early |-> FALSE, early38 |-> FALSE,
            touched |-> FALSE, resumed |-> [h \in H |-> 0], badinv |-> "none", foreignlost |-> FALSE,
            reverted |-> FALSE, leftunmatched |-> FALSE, staleview |-> FALSE,
            ownrv |-> 0, owntime |-> 0, blindwrite |-> FALSE, cseen |-> [h \in H |-> 0], f8 |-> FALSE,
@@ -595,8 +595,13 @@ SrvJson ==
      ELSE LET f2 == FnsApply(obj.fins, cyc.fns)
           IN /\ IF f2 # obj.fins
                 THEN /\ Commit([obj EXCEPT !.fins = f2])
-                     /\ gh' = [gh EXCEPT !.early = @ \/ (obj.deleting /\ K \in Range(obj.fins) /\ K \notin Range(f2)
-                                                         /\ obj.match /\ (~(Mandatory \subseteq gh.deldone) \/ \E h \in DHs : Entitled(h))),
+                     \* a release that comes early.  One shape of it is a known finding (F38): the removal was decided on a view in which the
+                     \* object did not match, and a merge-patch of the same cycle (a result, a purge) moved the base of the JSON-patch's version
+                     \* test from that view to the merged body -- changes made between the view and the merge (the object matches again) go unseen
+                     /\ LET e == obj.deleting /\ K \in Range(obj.fins) /\ K \notin Range(f2)
+                                  /\ obj.match /\ (~(Mandatory \subseteq gh.deldone) \/ \E h \in DHs : Entitled(h))
+                            k == ~cyc.s.match /\ cyc.fresh # cyc.s.rv
+                        IN gh' = [gh EXCEPT !.early = @ \/ (e /\ ~k), !.early38 = @ \/ (e /\ k),
                                          !.foreignlost = @ \/ (Remove(f2, K) # Remove(obj.fins, K))]
                 ELSE UNCHANGED <<obj, chan, gh>>
              /\ cyc' = [cyc EXCEPT !.rv = IF obj'.deleting /\ obj'.fins = <<>> THEN NeverRv ELSE obj'.rv, !.rem = {}]
@@ -799,11 +804,13 @@ Family_F8 == gh.f8
 \* F9: the deletion cycle is closed (records purged) while the object stays held for a daemon / timer that is still stopping; every
 \* further event starts the deletion handlers anew -- with more than one step per cycle, as fast as the API answers
 Family_F9 == gh.delagain
+Family_F38 == gh.early38       \* released early through a version test that a merge-patch of the same cycle had refreshed (see SrvJson)
 Family_F31 == obj.exists /\ Released /\ \E h \in H : obj.prog[h] # NoRec
 TerminalConverged == Terminal => (Converged \/ Family_F20 \/ Family_F21 \/ Family_F22 \/ Family_F31)
 Witness_F20 == ~(Terminal /\ ~Converged /\ Family_F20 /\ ~Family_F21 /\ ~Family_F22)
 Witness_F21 == ~(Terminal /\ ~Converged /\ Family_F21 /\ ~Family_F20 /\ ~Family_F22)
 Witness_F22 == ~(Terminal /\ ~Converged /\ Family_F22 /\ ~Family_F20 /\ ~Family_F21)
+NoF38 == ~Family_F38        \* must FAIL (MC_Handling_neg_f38): the known early release is a behaviour of the model, too
 FollowsMatching ==    \* C06: at rest the finalizer is on the object iff handlers require it
   (up /\ ~ENABLED Urgent /\ pc = "idle" /\ obj.exists /\ ~obj.deleting /\ chan = <<>> /\ bl = <<>> /\ mem.known) =>
      (K \in Range(obj.fins) <=> (obj.match /\ (Mandatory # {} \/ DReg \ mem.forever # {})))
